@@ -28,6 +28,7 @@ CHECKS["C20"] = {
         {"test": "TestC20Store", "shards_quick": 2, "checks_quick": 30000, "shards_thorough": 4, "checks_thorough": 500000},
         {"test": "TestC20Stream", "shards_quick": 2, "checks_quick": 10000, "shards_thorough": 4, "checks_thorough": 200000},
         {"test": "TestC20StreamConcurrent", "shards_quick": 4, "checks_quick": 15000, "shards_thorough": 16, "checks_thorough": 200000},
+        {"test": "TestC20SystemStream", "shards_quick": 4, "checks_quick": 4000, "shards_thorough": 16, "checks_thorough": 60000},
     ],
     "fuzz": [{"target": "FuzzC20Ring", "seconds": 60}],
     "rule": "op scripts (add / resize / query(start,count) / recent(count)) on ring buffers of capacity 1-12 with start and count drawn around lowest id, head, last id, capacity, 0 and MaxUint64, "
